@@ -969,15 +969,18 @@ def generator_shape(repo, seed=0, n=40):
             if abs(avg - expected) > 0.1 * expected:
                 problems.append(("mean-gap-off", case, avg, expected, tps, params["waiting_seconds_mean"]))
     # cpu_io_ratio shifts the mix of later operators
+    # (every step of the ladder 0, 0.25, .., 1 - both end points included - must raise the CPU-heavy share; a step moves the share
+    # by about 0.09, the sampling error of a difference is about 0.012)
     for sd in range(3):
         frac = {}
-        for ratio in (0.0, 1.0):
+        ladder = (0.0, 0.25, 0.5, 0.75, 1.0)
+        for ratio in ladder:
             params = dict(interactive_prob=0.5, query_prob=0, batch_prob=0.5, num_pipelines=4, num_operators=6, waiting_seconds_mean=1.0,
                           cpu_io_ratio=ratio, ticks_per_second=1, random_seed=seed * 7 + sd)
-            later = [seg_key(op.get_segments()[0]) for _t, out in run(params, 80, 100000) for p in out
+            later = [seg_key(op.get_segments()[0]) for _t, out in run(params, 160, 100000) for p in out
                      for op in list(p.values.node_lookup.values())[1:]]
             frac[ratio] = sum(1 for k in later if k[0] >= 20) / max(1, len(later))
-        if not (frac[1.0] > frac[0.0] + 0.15):
+        if not (frac[1.0] > frac[0.0] + 0.15) or any(not (frac[b_] > frac[a_] + 0.03) for a_, b_ in zip(ladder, ladder[1:])):
             problems.append(("cpu-io-ratio-does-not-shift-the-mix", sd, frac))
     kinds = {}
     for pb in problems:
